@@ -4,7 +4,8 @@ from vlib import run_pair
 PID = "C12"
 MODEL_VOS = ["model/Egress.vo"]
 ASSUMPTIONS = [
-    "the model describes /repo with fixes/C12-findaction-local-forms.diff and fixes/C12-udp-relay.diff applied",
+    "the model describes /repo with fixes/C12-findaction-local-forms.diff, fixes/C12-udp-relay.diff and (when the regenerated probe C12_fixDomainLiteral is 1; obligation C12_tree_fixed) fixes/C12-domain-literal.diff applied",
+    "the reading of a domain string as an IP literal by Go's resolver and dialer (netip.ParseAddr, zone dropped, IPv4-mapped unmapped) is a parameter lit of the model: theorems hold for every lit that gives no literal for the empty string and the well-known names and only byte values; the driver supplies the real reading with every case (L lines) and the end-to-end run observes what the resolver and dialer really do with such strings",
     "premise, not modelled: the OS delivers connections / datagrams addressed to loopback, private and unspecified addresses, the empty host and the well-known local names to the local host or private network; other names are resolved by the resolver and the resolved address is not judged again (as in the code, for user privacy)",
     "egress rules enter the model parsed (net.ParseCIDR and IPNet.Contains are compared with cidr_contains on every case); the random choice among several proxy names of a PROXY rule is an oracle index (the runner accepts any index in range)",
     "a UDP ASSOCIATE request naming the unspecified address is deliberately not rejected (RFC 1928); theorem C12_assoc_unspecified_refuted, finding sig udp-associate-request-unspecified-address-accepted; datagrams to the unspecified address are dropped",
